@@ -4,6 +4,9 @@
 //!   c10                 stdin: one request per line `op A [B]` (operands: decimal integer or n/d).
 //!                       stdout: one line per request: `shape=result` pairs separated by TAB, every
 //!                       shape being a different syntactic form of the same computation (see `shapes`).
+//!                       An operand `f:<16 hex digits>` is the double with those bits (registered as a
+//!                       global directly; the shapes that need a literal are skipped); a double result
+//!                       is printed the same way.
 //!   c10 raw             stdin: one Scheme program per line; stdout: its result (same canonical form).
 //!   c10 ops             stdin: one Scheme program per line; stdout: the opcodes of its bytecode.
 //!
@@ -50,10 +53,12 @@ fn eval(engine: &mut Engine, src: String) -> String {
     if r.is_err() {
         // a panic leaves the VM stack in an unspecified state: continue on a fresh engine
         // (the operands are re-defined by the caller before the next shape).
-        *engine = Engine::new();
+        *engine = new_engine();
     }
     match r {
         Ok(Ok(vals)) => match vals.last() {
+            // doubles are compared by their 64 bits, never by their text
+            Some(steel::SteelVal::NumV(x)) => format!("f:{:016x}", x.to_bits()),
             Some(v) => format!("{}", v),
             None => "void".to_string(),
         },
@@ -86,12 +91,22 @@ fn scheme_op(op: &str) -> Option<(&'static str, usize)> {
         "denominator" => ("denominator", 1),
         "isqrt" => ("exact-integer-sqrt", 1),
         "id" => ("+", 1),
+        "tostr" => ("number->string", 1),
+        "roundtrip" => ("c10-roundtrip", 1),
         _ => return None,
     })
 }
 
 fn has_prim(op: &str) -> bool {
-    !matches!(op, "gcd" | "lcm")
+    !matches!(op, "gcd" | "lcm" | "roundtrip")
+}
+
+const PRELUDE: &str = "(define (c10-roundtrip x) (string->number (number->string x)))";
+
+fn new_engine() -> Engine {
+    let mut e = Engine::new();
+    let _ = e.compile_and_run_raw_program(PRELUDE.to_string());
+    e
 }
 
 fn is_cmp(op: &str) -> bool {
@@ -200,7 +215,7 @@ fn main() {
     let args: Vec<String> = std::env::args().collect();
     let mode = args.get(1).map(|s| s.as_str()).unwrap_or("req");
     std::panic::set_hook(Box::new(|_| {}));
-    let mut engine = Engine::new();
+    let mut engine = new_engine();
     let stdin = std::io::stdin();
     let out = std::io::stdout();
     let mut out = out.lock();
@@ -270,6 +285,15 @@ fn main() {
                 // operands become globals through the reader (quote keeps the folder away)
                 let defs = |engine: &mut Engine| -> Option<String> {
                     for (name, lit) in ["c10-a", "c10-b"].iter().zip(operands.iter()) {
+                        if let Some(hex) = lit.strip_prefix("f:") {
+                            match u64::from_str_radix(hex, 16) {
+                                Ok(bits) => {
+                                    engine.register_value(name, steel::SteelVal::NumV(f64::from_bits(bits)));
+                                    continue;
+                                }
+                                Err(_) => return Some("err:bad-float-operand".to_string()),
+                            }
+                        }
                         let r = eval(engine, format!("(define {} (car (list '{})))", name, lit));
                         if r.starts_with("err") || r.starts_with("panic") {
                             return Some(r);
@@ -283,7 +307,15 @@ fn main() {
                 }
                 // every shape is flushed as soon as it is known: if the process dies (a panic inside
                 // natively compiled code aborts), the orchestrator sees which shape killed it.
-                for (i, (name, prog)) in shapes(toks[0], f, operands, n, all).into_iter().enumerate() {
+                let has_float = operands.iter().any(|o| o.starts_with("f:"));
+                let shape_list: Vec<(&'static str, String)> = shapes(toks[0], f, operands, n, all)
+                    .into_iter()
+                    .filter(|(name, _)| {
+                        !has_float
+                            || !matches!(*name, "fold" | "lit-r" | "lit-l" | "prim-lit" | "branch-lit")
+                    })
+                    .collect();
+                for (i, (name, prog)) in shape_list.into_iter().enumerate() {
                     write!(out, "{}{}=", if i == 0 { "" } else { "\t" }, name).ok();
                     out.flush().ok();
                     let r = eval(&mut engine, prog);
